@@ -76,6 +76,9 @@ def setup(E):
           anc(left(a), b) or anc(right(a), b)), Node, Node)""", note)
     ax("tree/leaf-bottom", "forall(lambda a, b: implies(leaf(a) and anc(a, b), a == b), Node, Node)", note)
 
+    # axioms whose automatic triggers make E-matching explode: the prover first tries every VC without them (sound)
+    E.ctx.heavy_axioms |= {"tree/anc-antisym", "tree/anc-trans", "tree/anc-chain", "tree/lca-common", "tree/lca-deepest",
+                           "tree/dep-strict", "tree/children-cover", "tree/leaf-bottom"}
     E.spec("dist", "a: Node, b: Node", "Int", "dep(a) + dep(b) - 2 * dep(lca2(a, b))")
 
     E.declare_class("LowestCommonAncestor", {"tree": "Node"})
@@ -344,12 +347,13 @@ def _traversal_theory(E):
         E.declare_ufun(f"{pref}_nth", ["Node", "Int"], "Node", native=nth)
         E.declare_ufun(f"{pref}_idx", ["Node", "Node"], "Int", native=idx)
         K = [f"{pref}_nth", f"{pref}_idx"]
-        E.axiom(f"tree/{pref}-in-subtree", f"forall(lambda r, i: implies(0 <= i and i < size(r), anc(r, {pref}_nth(r, i)) and {pref}_idx(r, {pref}_nth(r, i)) == i), Node, Int)", note, keys=K)
-        E.axiom(f"tree/{pref}-covers", f"forall(lambda r, n: implies(anc(r, n), 0 <= {pref}_idx(r, n) and {pref}_idx(r, n) < size(r) and {pref}_nth(r, {pref}_idx(r, n)) == n), Node, Node)", note, keys=K)
+        E.axiom(f"tree/{pref}-in-subtree", f"forall(lambda r, i: implies(0 <= i and i < size(r), anc(r, {pref}_nth(r, i)) and {pref}_idx(r, {pref}_nth(r, i)) == i), Node, Int, pat=[{pref}_nth(r, i)])", note, keys=K)
+        E.axiom(f"tree/{pref}-covers", f"forall(lambda r, n: implies(anc(r, n), 0 <= {pref}_idx(r, n) and {pref}_idx(r, n) < size(r) and {pref}_nth(r, {pref}_idx(r, n)) == n), Node, Node, pat=[{pref}_idx(r, n)])", note, keys=K)
     E.axiom("tree/size-pos", "forall(lambda r: size(r) >= 1, Node)", note, keys=["size"])
     E.axiom("tree/pre-parent-first", "forall(lambda r, a, b: implies(anc(r, a) and anc(a, b) and a != b, pre_idx(r, a) < pre_idx(r, b)), Node, Node, Node)", note, keys=["pre_idx", "pre_nth"])
     E.axiom("tree/lvl-parent-first", "forall(lambda r, a, b: implies(anc(r, a) and anc(a, b) and a != b, lvl_idx(r, a) < lvl_idx(r, b)), Node, Node, Node)", note, keys=["lvl_idx", "lvl_nth"])
     E.axiom("tree/post-children-first", "forall(lambda r, a, b: implies(anc(r, a) and anc(a, b) and a != b, post_idx(r, b) < post_idx(r, a)), Node, Node, Node)", note, keys=["post_idx", "post_nth"])
+    E.ctx.heavy_axioms |= {"tree/pre-parent-first", "tree/lvl-parent-first", "tree/post-children-first"}
     E.axiom("tree/up", """forall(lambda n: implies(n != rootof(n) and binary(rootof(n)),
           anc(up(n), n) and up(n) != n and not leaf(up(n)) and (left(up(n)) == n or right(up(n)) == n)), Node)""", note, keys=["up"])
     E.axiom("tree/up-of-child", "forall(lambda a: implies(binary(rootof(a)) and not leaf(a), up(left(a)) == a and up(right(a)) == a), Node)", note, keys=["up"])
